@@ -144,6 +144,19 @@ func c14Templates(p *chk.Prog, r *chk.Report) *chk.TemplateSet {
 	}
 	// the root template is the one executed, with the *frrConfig the debouncer passes
 	okRoot := len(fm.Graph().FindPat(`template.New("frr.tmpl")`)) == 1
+	if !okRoot {
+		// the set parsed once by another function of the package (and cloned per render): one template.New in the
+		// package, and it names frr.tmpl
+		nNew, nRoot := 0, 0
+		for _, o := range p.FuncsIn(frrPkg) {
+			if o.Body == nil {
+				continue
+			}
+			nNew += len(o.Graph().FindPat(`template.New(_)`))
+			nRoot += len(o.Graph().FindPat(`template.New("frr.tmpl")`))
+		}
+		okRoot = nNew == 1 && nRoot == 1
+	}
 	x.Check("templates:root-is-frr.tmpl", fm.Pos(), okRoot, "", "templateConfig does not execute frr.tmpl")
 	ncalls := 0
 	for _, cs := range ts.CallSites {
